@@ -11,11 +11,14 @@ var kindNames = []string{"flags-enum", "enum", "opcode-struct", "readonly-struct
 var singleNames = []string{"enum", "enum-byte", "enum-uint8", "enum-uint16", "enum-int16", "enum-uint32", "enum-int32", "enum-uint64", "enum-int64",
 	"flags-enum", "enum-docs", "struct", "struct-types", "readonly-struct", "struct-opcode-int", "struct-opcode-str", "struct-docs",
 	"message", "message-opcode", "message-docs", "union", "union-opcode", "const-int", "const-float", "const-string-bool", "const-guid",
-	"imports", "four-kinds", "go-package", "enum-int64+struct-opcode-str"}
+	"imports", "four-kinds", "go-package", "block-docs-in-bodies"}
 
 // CaseName names schema case i (used in assertion ids, so that a finding is
 // identified by the construct and not by the input).
 func CaseName(i int) string {
+	if i >= 30 && i < nSingles {
+		return "type:" + deepTypes[i-30].name
+	}
 	if i >= nSingles {
 		p := i - nSingles
 		return kindNames[p/nKinds] + ">" + kindNames[p%nKinds]
@@ -40,7 +43,7 @@ func C11(shard, nshards int) {
 	defs, docs := Case(i)
 	st := styleFor(docs, 1)
 	src := Print(defs, st)
-	want := Want(defs)
+	want := Want(defs, st)
 	vstub.SetLoopBudget(64*len(src) + 1024)
 	got, _, err := bebop.ReadFile(reader(src))
 	vstub.Assert("c11.err/"+cls, err == nil)
